@@ -306,13 +306,35 @@ def synthetic(pt, acc, rng):
     acc.counters["synthetic_maps_ok"] += 1
 
 
+def replay_synthetic(pt, acc, rows):
+    from pyteal.compiler.sourcemap import R3SourceMap, R3SourceMapping
+    acc.evaluations += 1
+    entries = {(i, 0): R3SourceMapping(line=i, column=0, source=src, source_line=sl, source_column=sc) for i, (src, sl, sc) in enumerate(rows)}
+    try:
+        r3 = R3SourceMap(filename="t.teal", source_root="", entries=entries, index=[(0,) for _ in rows])
+        j = r3.to_json()
+        dec = decode_mappings(j)
+        exp = [(li, 0, j["sources"].index(e.source), e.source_line, e.source_column) for (li, _), e in sorted(entries.items())]
+        back = R3SourceMap.from_json(json.loads(json.dumps(j)))
+        b2 = [(k, v.source, v.source_line, v.source_column) for k, v in sorted(back.entries.items())]
+        a2 = [(k, v.source, v.source_line, v.source_column) for k, v in sorted(entries.items())]
+        if dec != exp:
+            acc.violation("json_encoding", {"synthetic": rows}, "independent decoding differs from the map")
+        elif a2 != b2:
+            acc.violation("json_roundtrip", {"synthetic": rows}, "from_json(to_json()) differs from the map")
+        else:
+            acc.counters["synthetic_maps_ok"] += 1
+    except Exception as e:
+        acc.violation("codec_crash", {"synthetic": rows}, "%s: %s" % (type(e).__name__, str(e)[:200]))
+
+
 def run_shard(shard):
     import sys
     import pyteal as pt
     from .. import pool, smgen
     from ..common import Acc, rng_for
     acc = Acc()
-    rng = rng_for(shard["seed"], "c15", shard["shard"])
+    rng = rng_for(shard.get("seed", 0), "c15", shard.get("shard", 0))
     d = tempfile.mkdtemp(prefix="c15-", dir=os.environ.get("VERIF_TMP", "/var/tmp"))
     try:
         sys.path.insert(0, d)
@@ -329,6 +351,9 @@ def run_shard(shard):
                 descs = [dict(c["tree"], files=files, mode="app")]
             else:
                 descs = []
+                if "synthetic" in c:
+                    # synthetic maps are regenerated from their entry list
+                    replay_synthetic(pt, acc, c["synthetic"])
         else:
             descs = [smgen.generate(rng, d, "%d_%d" % (shard["shard"], i)) for i in range(shard["n"])]
         # gate-off process
